@@ -662,7 +662,7 @@ func c09mono(c *Ctx, fn *ssa.Function) {
 
 func c09degrade(c *Ctx, fn *ssa.Function) {
 	r := c.R
-	r.Rule("PATH: in (*Plugin).Calculate the call of calculate is unreachable when isDegradeNeeded returned true; on that path the result comes from degradeCalculate, which returns Reset(); Reset sets Reset=true on every item")
+	r.Rule("PATH: in (*Plugin).Calculate the call of calculate is unreachable when isDegradeNeeded returned true; on that path the result comes from Reset() (directly or through an in-package wrapper such as degradeCalculate whose every return is Reset()); Reset marks every item it produces Reset=true")
 	const p = "(*" + load.Module + "/" + batchPkg + ".Plugin)."
 	deg := an.CallsTo(fn, false, p+"isDegradeNeeded")
 	calc := an.CallsTo(fn, false, p+"calculate")
@@ -673,39 +673,57 @@ func c09degrade(c *Ctx, fn *ssa.Function) {
 	}
 	reach := an.Explore(fn, nil, an.Facts{deg[0].Value(): an.True}, nil)
 	okGate := !reach.Reached(calc[0])
-	// returns on that path must come from degradeCalculate
+	// returns on that path must come from Reset(), directly or through an in-package wrapper that returns Reset()
+	var viaReset func(v ssa.Value, depth int) bool
+	viaReset = func(v ssa.Value, depth int) bool {
+		call, _ := an.ResultOfCall(v)
+		if call == nil || depth > 2 {
+			return false
+		}
+		if an.CalleeName(&call.Call) == p+"Reset" {
+			return true
+		}
+		callee := call.Call.StaticCallee()
+		if callee == nil || len(callee.Blocks) == 0 || callee.Pkg != fn.Pkg {
+			return false
+		}
+		alts := an.ReturnAlts(callee)
+		for _, a := range alts {
+			if !viaReset(a.Results[0], depth+1) {
+				return false
+			}
+		}
+		return len(alts) > 0
+	}
 	okRet := true
 	for _, ret := range reach.Returns() {
 		if reach.EvalAt(ret.Results[1], ret) == an.NonNil {
 			continue // error return for missing arguments
 		}
-		call, _ := an.ResultOfCall(ret.Results[0])
-		if call == nil || an.ShortCallee(&call.Call) != "degradeCalculate" {
-			if !an.IsNilConst(ret.Results[0]) {
-				okRet = false
-			}
+		if !viaReset(ret.Results[0], 0) && !an.IsNilConst(ret.Results[0]) {
+			okRet = false
 		}
 	}
 	r.Check(okGate && okRet, "PATH", key, c.InstrPos(deg[0]), "with stale metrics only the degraded result is returned", sprintf("with isDegradeNeeded()==true: calculate reachable=%v, non-degraded return=%v", !okGate, !okRet))
-	// degradeCalculate -> Reset ; Reset sets Reset=true
-	if dc := c.Fn(batchPkg, "Plugin", "degradeCalculate"); dc != nil {
-		ok := len(an.CallsTo(dc, false, p+"Reset")) == 1
-		r.Check(ok, "PATH", fkey(dc)+"/returns-Reset", c.Pos(dc.Pos()), "degradeCalculate returns Reset()", "degradeCalculate no longer returns Reset()")
-	}
 	if rs := c.Fn(batchPkg, "Plugin", "Reset"); rs != nil {
+		// every store to a ResourceItem's Reset field in Reset() writes true, and there is at least one (items[i].Reset = true,
+		// or a composite literal {.., Reset: true} appended per resource name)
 		ok := false
+		allTrue := true
 		for _, b := range rs.Blocks {
 			for _, in := range b.Instrs {
 				if st, ok2 := in.(*ssa.Store); ok2 {
 					if _, f, _, ok3 := an.FieldOf(st.Addr); ok3 && f == "Reset" {
-						if cst, isC := st.Val.(*ssa.Const); isC && cst.Value != nil && cst.Value.String() == "true" {
-							// must be inside the loop over all items: dominated by the loop bound test
+						if isTrueConst(st.Val) {
 							ok = true
+						} else {
+							allTrue = false
 						}
 					}
 				}
 			}
 		}
+		ok = ok && allTrue
 		r.Check(ok, "PATH", fkey(rs)+"/Reset=true", c.Pos(rs.Pos()), "every item is marked Reset=true", "Reset() no longer marks the items Reset=true: stale metrics freeze the old value")
 	}
 }
